@@ -7,6 +7,7 @@ field of the register classes against the architectural bit table of spec/regfie
 from contracts import registry
 from pyvc.unit import U, S, R, K, Flag
 from pyvc import sym
+from pyvc.sym import land
 from spec import prims as P
 from .common import pure_unit, fmt
 from pyvc.unit import Unit, values_eq
@@ -349,6 +350,61 @@ def regview_units(tier):
             continue
         for (g, s_, fm, fl, nlo, nhi) in lst:
             out.append(indexed_unit(cname, classes[cname], g, s_, fm, fl, nlo, nhi))
+    # RGNR: the Region field is ceil(log2(number of regions)) bits wide; for every region count, with the register holding a
+    # region number, set_region / get_region store and return any region number 0 .. N-1 exactly
+    def rgnr_unit(nreg):
+        RG = m.rgnr.RGNR if hasattr(m, 'rgnr') else __import__('armulator.armv6.all_registers.rgnr', fromlist=['RGNR']).RGNR
+        CF = m.configurations
+        uid = 'C17/field:RGNR.region[regions=%d]' % nreg
+
+        def symbolic(eng):
+            from . import machine as MC
+            cfgs = eng.register(dict(MC.config_dict('PMSA', nreg)))
+            if isinstance(cfgs.get('reset_values'), dict):
+                cfgs['reset_values'] = eng.register(dict(cfgs['reset_values']))
+            eng.subst[id(CF.configurations)] = eng.new_obj(CF.Configurations, {'configs': cfgs})
+            try:
+                o = eng.call(RG, [nreg])
+            except PyRaise as e:
+                eng.oblige('safe.host', 'RGNR(%d) raises %s' % (nreg, e.exc.cls.__name__), False)
+                return
+            prev = eng.fresh_int('previous', 8)
+            new = eng.fresh_int('region', 8)
+            eng.assume(land(prev < nreg, new < nreg))
+            o.attrs['value'] = prev
+            try:
+                eng.call(RG.set_region, [o, new])
+                got = eng.call(RG.get_region, [o])
+            except PyRaise as e:
+                eng.oblige('safe.host', 'set_region / get_region raises %s' % e.exc.cls.__name__, False)
+                return
+            eng.oblige('post', 'set_region stores the region number (register holding a region number before)', values_eq(o.attrs['value'], new))
+            eng.oblige('post', 'get_region returns the region number written', values_eq(got, new))
+
+        def replay(inputs, ob):
+            import json as js
+            import os
+            import tempfile
+            from . import machine as MC
+            cfg = MC.config_dict('PMSA', nreg)
+            fd, path = tempfile.mkstemp(suffix='.json')
+            with os.fdopen(fd, 'w') as f:
+                js.dump(cfg, f)
+            try:
+                cpu = m.arm_v6.ArmV6(path)
+            finally:
+                os.unlink(path)
+            r = RG(nreg)
+            r.value = inputs.get('previous', 0)
+            r.set_region(inputs.get('region', 0))
+            text = 'RGNR(%d): previous %d, set_region(%d) -> value %d, get_region() %d' % (nreg, inputs.get('previous', 0), inputs.get('region', 0), r.value, r.get_region())
+            bad = r.value != inputs.get('region', 0) or r.get_region() != inputs.get('region', 0)
+            m.arm_v6.ArmV6()
+            return bad, text
+        return Unit(uid, ['C17', 'C14'], symbolic, replay, {'contracts': {}}, meta={'function': '%s.RGNR.set_region' % RG.__module__})
+    for nreg in (range(1, 65) if tier == 'thorough' else range(1, 33)):
+        out.append(rgnr_unit(nreg))
+
     # every property of every live register class must be in the architectural table
     def completeness(eng):
         miss = []
